@@ -10,6 +10,10 @@ fn gen_name(rng: &mut Rng) -> String {
     let n = rng.range(1, 10) as usize;
     (0..n)
         .map(|_| loop {
+            // names and file names are arbitrary text: non-ASCII characters travel as they are
+            if rng.chance(1, 8) {
+                break *rng.pick(&['é', 'ü', '日', '本', 'Ω', '\t', '\u{7f}', '😀']);
+            }
             let c = rng.range(0x20, 0x7e) as u8 as char;
             if c != '"' {
                 break c;
@@ -55,6 +59,7 @@ pub fn generate(seed: u64, tier: &str, sink: &mut Sink) {
             swept.push((vec![("t".into(), "v".into())], vec![("f".into(), data, None, Some("text/plain".into())), ("g".into(), b"second part".to_vec(), Some("b".into()), None)]));
         }
     }
+    resend_cases(&mut Rng::new(seed ^ 0xC15A), if thorough { 200 } else { 20 }, sink);
     let nswept = swept.len();
     let n = n + nswept;
     for i in 0..n {
@@ -197,6 +202,75 @@ pub fn generate(seed: u64, tier: &str, sink: &mut Sink) {
             impl_line,
             oracle: o,
         });
+    }
+}
+
+/// A prepared request whose first transmission fails in the middle of the body (the connection breaks) is sent
+/// again: the second transmission carries the whole form.
+fn resend_cases(rng: &mut Rng, n: usize, sink: &mut Sink) {
+    use attohttpc::verif_hooks;
+    for i in 0..n {
+        let nb = *rng.pick(&[20_000usize, 70_000, 9000]);
+        let big: Vec<u8> = rng.bytes(nb);
+        let ns = rng.range(0, 50) as usize;
+        let small: Vec<u8> = rng.bytes(ns);
+        let text = format!("value-{}", i);
+        let fail_after = 200 + rng.below(big.len() as u64) as usize;
+        let build = || {
+            attohttpc::MultipartBuilder::new()
+                .with_text("title", &text)
+                .with_file(attohttpc::MultipartFile::new("small", &small).with_filename("s.bin"))
+                .with_file(attohttpc::MultipartFile::new("big", &big))
+                .build()
+        };
+        let o: Result<(), (String, String)> = (|| {
+            let form = build().map_err(|e| ("prepare-failed".to_string(), format!("{:?}", e.kind())))?;
+            let mut prepared = attohttpc::post("http://verif.test/upload").follow_redirects(false).body(form).try_prepare().map_err(|e| ("prepare-failed".to_string(), format!("{:?}", e.kind())))?;
+            let logs: std::sync::Arc<std::sync::Mutex<Vec<std::sync::Arc<std::sync::Mutex<crate::script::Log>>>>> = Default::default();
+            let l2 = logs.clone();
+            let mut k = 0;
+            verif_hooks::set_dial_factory(Box::new(move |_info| {
+                k += 1;
+                if k == 1 {
+                    crate::script::set_write_fail_after(Some(fail_after));
+                }
+                let (script, log) = crate::script::Script::new(vec![Seg::Data(OK_RESPONSE.to_vec())]);
+                l2.lock().unwrap().push(log);
+                Some(Ok(Box::new(script) as Box<dyn verif_hooks::Transport>))
+            }));
+            let first = std::panic::catch_unwind(std::panic::AssertUnwindSafe(|| prepared.send().map(|r| r.status().as_u16())));
+            let second = std::panic::catch_unwind(std::panic::AssertUnwindSafe(|| prepared.send().map(|r| r.status().as_u16())));
+            verif_hooks::clear_dial_factory();
+            crate::script::set_write_fail_after(None);
+            if first.is_err() || second.is_err() {
+                return Err(("panic-resend".into(), "send() panicked".into()));
+            }
+            if matches!(first, Ok(Ok(_))) {
+                return Err(("broken-connection-unreported".into(), format!("the connection took {} bytes and then failed every write, yet send() returned Ok", fail_after)));
+            }
+            let logs = logs.lock().unwrap();
+            let written = logs.get(1).map(|l| l.lock().unwrap().written.clone()).ok_or(("no-second-connection".to_string(), format!("second send: {:?}", second.as_ref().map(|r| r.as_ref().map_err(|e| format!("{:?}", e.kind()))))))?;
+            let pr = spec::parse_request(&written).map_err(|e| ("malformed-request-resend".to_string(), e))?;
+            let ct = pr.headers.iter().find(|(n, _)| n == "content-type").map(|(_, v)| v.clone()).unwrap_or_default();
+            let pfx = b"multipart/form-data; boundary=";
+            if !ct.starts_with(pfx) {
+                return Err(("content-type".into(), format!("{:?}", String::from_utf8_lossy(&ct))));
+            }
+            let got = spec::decode_multipart(&ct[pfx.len()..], &pr.body).map_err(|e| ("undecodable-resend".to_string(), e))?;
+            let mut want = vec![
+                Part { name: b"title".to_vec(), filename: None, content_type: None, data: text.as_bytes().to_vec() },
+                Part { name: b"small".to_vec(), filename: Some(b"s.bin".to_vec()), content_type: Some(b"application/octet-stream".to_vec()), data: small.clone() },
+                Part { name: b"big".to_vec(), filename: None, content_type: Some(b"application/octet-stream".to_vec()), data: big.clone() },
+            ];
+            let mut g2 = got.clone();
+            g2.sort();
+            want.sort();
+            if g2 != want {
+                return Err(("parts-differ-resend".into(), format!("after a first transmission that broke after {} bytes, the second one decodes to {} parts (3 were added)", fail_after, got.len())));
+            }
+            Ok(())
+        })();
+        sink.push(Case { tags: vec!["kind=resend-after-broken-connection".into()], op: "nop resend".into(), impl_line: "nop".into(), oracle: o });
     }
 }
 
